@@ -340,6 +340,11 @@ func ShrinkScenario(sc Scenario) []Scenario {
 			c.Gens[i].CustomNew = false
 			out = append(out, c)
 		}
+		if sc.Gens[i].Kind != "" {
+			c := clone(sc)
+			c.Gens[i].Kind = ""
+			out = append(out, c)
+		}
 		if sc.Gens[i].Proto {
 			c := clone(sc)
 			c.Gens[i].Proto = false
@@ -356,6 +361,37 @@ func ShrinkScenario(sc Scenario) []Scenario {
 		if len(p.Imports) > 0 {
 			c := clone(sc)
 			c.Module.Pkgs[pi].Imports = nil
+			out = append(out, c)
+		}
+		// further declarations (probe.go): every other function, then one declaration at a time, last first (a candidate
+		// that no longer compiles does not start and is not kept)
+		if len(p.Decls) > 5 {
+			for _, odd := range []bool{true, false} {
+				c := clone(sc)
+				var kept []string
+				k := 0
+				for _, d := range p.Decls {
+					if strings.HasPrefix(d, "func ") {
+						if k++; (k%2 == 1) == odd {
+							continue
+						}
+					}
+					kept = append(kept, d)
+				}
+				c.Module.Pkgs[pi].Decls = kept
+				out = append(out, c)
+			}
+		}
+		for di := len(p.Decls) - 1; di >= 0; di-- {
+			c := clone(sc)
+			ds := c.Module.Pkgs[pi].Decls
+			c.Module.Pkgs[pi].Decls = append(ds[:di:di], ds[di+1:]...)
+			out = append(out, c)
+		}
+		for ii := range p.GoImports {
+			c := clone(sc)
+			is := c.Module.Pkgs[pi].GoImports
+			c.Module.Pkgs[pi].GoImports = append(is[:ii:ii], is[ii+1:]...)
 			out = append(out, c)
 		}
 	}
@@ -491,7 +527,7 @@ func RunScenario(sc Scenario, scratch string, wrapper ...string) (*Observation, 
 		return nil, err
 	}
 	job := Job{Dir: root, Entry: sc.Entry, All: sc.All, Force: sc.Force, Base: sc.Base, Gens: sc.Gens, Out: scratch + "/run",
-		Globals: sc.Globals, GlobalsSet: sc.GlobalsSet, Workspace: sc.Module.Work != ""}
+		Globals: sc.Globals, GlobalsSet: sc.GlobalsSet, Work: sc.Module.Work != ""}
 	rr := RunChild(job, scratch, wrapper...)
 	InheritTags(rr.World, sc)
 	after, err := SnapshotModule(root, &sc.Module)
